@@ -1,5 +1,14 @@
 #!/bin/sh
 cd /verif || exit 2
-./scripts/sched_build.sh C08 || exit 2
+./scripts/sched_build.sh C08; rc=$?
 export GORACE="exitcode=0 history_size=2"
+if [ $rc -eq 3 ]; then
+  # parts (a) selections and (b) histories do not need the scheduler: run them on the plain build; the lock part
+  # reports itself as skipped (exhaustive: false)
+  echo "NOTE property=C08 the lock-discipline part is not decided on this tree: it cannot be instrumented (see stderr)"
+  . ./scripts/env.sh
+  go build -o .build/owcheck-C08 ./cmd/owcheck || exit 2
+  exec .build/owcheck-C08 C08 "$@"
+fi
+[ $rc -ne 0 ] && exit 2
 exec .build/owcheck-sched-C08 C08 "$@"
